@@ -518,13 +518,19 @@ Proof.
   - reflexivity.
 Qed.
 
+Lemma clean_or_restore_styles s s' : styles s' = styles s -> styles (fst (clean_or_restore s s')) = styles s.
+Proof.
+  intros H. unfold clean_or_restore. pose proof (clean_styles s') as Hc.
+  destruct (clean s') as [t r]; destruct r; cbn [fst] in *; try reflexivity. now rewrite Hc.
+Qed.
+
 Lemma insert_ns_styles s p u idx : styles (fst (insert_ns s p u idx)) = styles s.
 Proof.
   unfold insert_ns.
   match goal with |- context [match ?x with inl _ => _ | inr _ => _ end] => destruct x as [i|e] end;
     [|reflexivity].
   destruct (lookup (view s) p) as [u'|]; [destruct (str_eqb u' u); [reflexivity|]|];
-    now rewrite clean_styles, styles_insert_ns.
+    now rewrite clean_or_restore_styles; [|apply styles_insert_ns].
 Qed.
 
 Definition ns_op_at (s : sheet) (o : op) : bool :=
@@ -672,8 +678,11 @@ Proof.
     [|exact Hur].
   assert (Hi : ur (insert_at i (RNs p u) s)).
   { rewrite insert_at_split. apply add_ns_ok. now rewrite firstn_skipn. }
-  destruct (lookup (view s) p) as [u'|]; [destruct (str_eqb u' u); [exact Hur|]|];
-    unfold clean; now apply clean_loop_ur.
+  assert (Hc : ur (fst (clean (insert_at i (RNs p u) s)))) by (unfold clean; now apply clean_loop_ur).
+  assert (Hr : ur (fst (clean_or_restore s (insert_at i (RNs p u) s)))).
+  { unfold clean_or_restore. destruct (clean (insert_at i (RNs p u) s)) as [t r]. cbn [fst] in Hc.
+    destruct r; cbn [fst]; assumption. }
+  destruct (lookup (view s) p) as [u'|]; [destruct (str_eqb u' u); [exact Hur|]|]; exact Hr.
 Qed.
 
 Lemma set_prefix_items s : forall k p, all_items (set_prefix s k p) = all_items s.
@@ -1119,7 +1128,7 @@ Proof.
     unfold not_uri. cbn [snd]. rewrite negb_true_iff, seqb_false. split.
     - intros [H|H]; [left; now symmetry|now right].
     - intros [H|H]; [left; now symmetry|now right]. }
-  unfold clean. rewrite clean_loop_ok.
+  unfold clean_or_restore, clean. rewrite clean_loop_ok.
   - cbn [app]. eexists. split; [reflexivity|].
     rewrite ns_list_filter_keep. fold s1. rewrite Hn1, filter_app. f_equal.
     + apply filter_ext_in. intros [p' u'] Hi. cbn [fst snd]. unfold not_uri. cbn [snd].
